@@ -927,6 +927,21 @@ fn main() {
             sup.case("resolve", "generated-pair", &doc, &format!("{}={}", key, hex(&bytes)));
         }
     }
+
+    // 7. implicit and explicit imports on one name or semver track with equal and with conflicting
+    //    types, in every order: every conflict has to come back from `Resolution::encode` as a
+    //    diagnostic
+    for _ in 0..scale(600, 60_000) {
+        let (doc, pkgs) = c14_pairs::gen_conflict(&mut r);
+        let mut items = Vec::new();
+        for (name, wat) in &pkgs {
+            match wat::parse_str(wat) {
+                Ok(bytes) => items.push(format!("{}={}", name, hex(&bytes))),
+                Err(_) => sup.out.count("setup:generated-wat-rejected"),
+            }
+        }
+        sup.case("resolve", "generated-conflict", &doc, &items.join(","));
+    }
     let _ = sup.w.child.kill();
     sup.out.finish();
 }
